@@ -98,17 +98,29 @@ theorem txStep_chanInit (s : St) (c : Nat) : txStep s [.chanInit c] = step s (.c
   repeat' split
   all_goals simp_all
 
-theorem txStep_chanAck (s : St) (ch : Nat) (ibc : Bool) : txStep s [.chanAck ch ibc] = step s (.chanAck ch ibc) := by
-  simp only [txStep, List.findSome?, nestedRefusal, signerRefusal, anteAll, anteMsg, execAll, execMsg, step, chanAck]
-  cases hf : s.chans.find? (·.id == ch) with
-  | none => simp
-  | some cc =>
-    cases hl : lookup s.c2r cc.client with
-    | none => cases ibc <;> simp [hf, hl]
-    | some r =>
-      by_cases hx : (lookup s.chanOf r).isSome = true
-      · simp [hx, hl]
-      · cases ibc <;> simp [hx, hf, hl]
+theorem txStep_chanAck (s : St) (ch : Nat) (w : ChanRoute) (ibc : Bool) : txStep s [.chanAck ch w ibc] = step s (.chanAck ch w ibc) := by
+  cases w with
+  | ack =>
+    simp only [txStep, List.findSome?, nestedRefusal, signerRefusal, anteAll, anteMsg, execAll, execMsg, step, chanAck]
+    cases hf : s.chans.find? (·.id == ch) with
+    | none => simp
+    | some cc =>
+      cases hl : lookup s.c2r cc.client with
+      | none => cases ibc <;> simp [hf, hl]
+      | some r =>
+        by_cases hx : (lookup s.chanOf r).isSome = true
+        · simp [hx, hl]
+        · cases ibc <;> simp [hx, hf, hl]
+  | nestedAck =>
+    simp only [txStep, List.findSome?, nestedRefusal, signerRefusal, anteAll, anteMsg, execAll, execMsg, step, chanAck]
+    cases hf : s.chans.find? (·.id == ch) with
+    | none => simp
+    | some cc => cases ibc <;> simp
+  | confirm =>
+    simp only [txStep, List.findSome?, nestedRefusal, signerRefusal, anteAll, anteMsg, execAll, execMsg, step, chanAck]
+    cases hf : s.chans.find? (·.id == ch) with
+    | none => simp
+    | some cc => cases ibc <;> simp
 
 /-- **txStep_single** — a transaction of one message is the stand-alone op: the split of `updateClient`,
     `misbehaviour`, `chanAck` into an ante part and a message part composes back to `LC.step` -/
@@ -120,7 +132,7 @@ theorem txStep_single (s : St) (op : Op) : txStep s [op] = step s op := by
   | updateClient c w hd ibc => exact txStep_updateClient s c w hd ibc
   | misbehaviour c k ibc => exact txStep_misbehaviour s c k ibc
   | chanInit c => exact txStep_chanInit s c
-  | chanAck ch ibc => exact txStep_chanAck s ch ibc
+  | chanAck ch w ibc => exact txStep_chanAck s ch w ibc
 
 /-- the empty transaction changes nothing -/
 theorem txStep_nil (s : St) : txStep s [] = (s, .ok) := by
